@@ -150,6 +150,35 @@ static void run_touch(uint64_t idx)
     VRT_MAX("max.touch.pages-per-keyed-call", maxt);
     VRT_COUNT_N("touch.keyed-calls-monitored", calls);
     audit_all("after the monitored rehash");
+    /* a nearly empty big table: a resize is pending and the last few elements are erased one by one under the monitor -- also the
+     * call that takes the size from 1 to 0 must not "tidy up" the whole table */
+    {
+        long worst = 0;
+        int left = NE;
+        for (i = 0; i < NE - 3; i++) cstl_hash_erase(&H, &E[i]);
+        left = 3;
+        VRT_OP1("hash.resize", "%ld buckets (pending), three elements left", (long)(from[v] + 777));
+        cstl_hash_resize(&H, from[v] + 777, cstl_hash_div);
+        monitor_install();
+        for (i = NE - 3; i < NE; i++) {
+            const long pg = protect_buckets();
+            VRT_OP1("hash.erase", "monitored erase, %ld elements left", (long)left);
+            cstl_hash_erase(&H, &E[i]);
+            unprotect_buckets();
+            left--;
+            if (touched > worst) worst = touched;
+            if (touched > PAGE_LIMIT) {
+                const long t = touched;
+                monitor_remove();
+                vrt_fail(left == 0 ? "hashwork.pages-touched.by-the-erase-that-empties-the-table" : "hashwork.pages-touched.by-a-keyed-call-while-pending",
+                         "one erase touched %ld of the %ld pages of the bucket array (limit %d) with %d elements left", t, pg, PAGE_LIMIT, left);
+            }
+            VRT_CHECK(cstl_hash_size(&H) == (size_t)left, "hashwork.size", "size %zu after the erase, %d elements left", cstl_hash_size(&H), left);
+        }
+        monitor_remove();
+        VRT_MAX("max.touch.pages-per-erase-on-a-nearly-empty-table", worst);
+        VRT_COUNT("touch.emptied-under-the-monitor");
+    }
     cstl_hash_clear(&H, NULL);
     vrt_free(E);
     VRT_COUNT("touch.cases");
@@ -179,7 +208,13 @@ static void run_forced(uint64_t idx)
     switch (how) {
     case 0: VRT_OP0("hash.rehash", "forced finish"); cstl_hash_rehash(&H); break;
     case 1: { long n = 0; VRT_OP0("hash.foreach", "forced finish"); cstl_hash_foreach(&H, visit_count, &n); break; }
-    case 2: VRT_OP0("hash.resize", "forced finish by a further resize"); cstl_hash_resize(&H, to[v] / 2 + 7, cstl_hash_div); cstl_hash_rehash(&H); break;
+    case 2:
+        /* a further resize: smaller, or (every second case) far beyond the current capacity while the earlier one is partly worked off */
+        VRT_OP0("hash.resize", "forced finish by a further resize");
+        if (idx & 8) { cstl_hash_resize(&H, 3 * (from[v] > to[v] ? from[v] : to[v]) + 11, cstl_hash_div); VRT_COUNT("forced.further-resize-beyond-capacity"); }
+        else cstl_hash_resize(&H, to[v] / 2 + 7, cstl_hash_div);
+        cstl_hash_rehash(&H);
+        break;
     default:
         /* shrink_to_fit finishes the rehash only when it has something to give back; otherwise it is a no-op and rehash() finishes */
         VRT_OP0("hash.shrink_to_fit", "possibly forcing the finish"); cstl_hash_shrink_to_fit(&H);
@@ -192,6 +227,24 @@ static void run_forced(uint64_t idx)
     cstl_hash_resize(&H, from[v], cstl_hash_div);
     for (i = 0; i < NE; i++) VRT_CHECK(cstl_hash_find(&H, E[i].key, NULL, NULL) == &E[i], "hashwork.lost-element", "element %d not found after the following resize", i);
     audit_all("after the following resize");
+    /* further lives of the same table object: clear, then a FIRST resize that is large (8192 .. 20000 buckets: allocator and
+     * implementation thresholds), fill, a geometry change worked off incrementally, audit -- after an odd and an even number of
+     * earlier resizes */
+    {
+        int life;
+        for (life = 0; life < 2 + (int)(idx & 1); life++) {
+            VRT_OP1("hash.clear", "life %ld ends", (long)life);
+            cstl_hash_clear(&H, NULL);
+            VRT_OP0("hash.resize", "large first resize of a cleared table");
+            cstl_hash_resize(&H, 8192 + (size_t)vrt_below(&g, 12000), (life & 1) ? cstl_hash_mul : cstl_hash_div);
+            for (i = 0; i < NE; i++) cstl_hash_insert(&H, E[i].key, &E[i]);
+            if (life & 1) cstl_hash_rehash(&H);
+            cstl_hash_resize(&H, 3000 + (size_t)vrt_below(&g, 6000), cstl_hash_div);
+            for (i = 0; i < NE; i++) VRT_CHECK(cstl_hash_find(&H, E[i].key, NULL, NULL) == &E[i], "hashwork.lost-element", "life %d: element %d not found after the geometry change", life, i);
+            audit_all("in a later life of the table object");
+            VRT_COUNT("forced.later-lives-with-a-large-first-resize");
+        }
+    }
     cstl_hash_clear(&H, NULL);
     vrt_free(E);
     VRT_COUNT("forced.cases");
@@ -207,8 +260,8 @@ static void run_case(uint64_t idx)
     vrt_sig(0, vrt_mix(0x4a57, idx));
 }
 static void winit(void) { vrt_sig_name(0, "cases"); }
-static const char *const required[] = { "forced.cases", "forced.finish-with-rehash-still-pending", NULL };
-static const char *const required_native[] = { "forced.cases", "forced.finish-with-rehash-still-pending", "touch.cases", "touch.keyed-calls-monitored",
+static const char *const required[] = { "forced.cases", "forced.finish-with-rehash-still-pending", "forced.further-resize-beyond-capacity", "forced.later-lives-with-a-large-first-resize", NULL };
+static const char *const required_native[] = { "forced.cases", "forced.finish-with-rehash-still-pending", "forced.further-resize-beyond-capacity", "forced.later-lives-with-a-large-first-resize", "touch.emptied-under-the-monitor", "touch.cases", "touch.keyed-calls-monitored",
                                                "touch.completing-call-observed", NULL };
 static struct vrt_harness H_ = { "hashwork", ncases, run_case, winit, NULL, required, 16 };
 int main(int argc, char **argv)
